@@ -108,7 +108,8 @@ def tlc_mc(module, cfg, wd, workers=8, timeout=1200, extra=None, env=None):
     """Model checking run. Returns dict(states, distinct, ok, violated, out_path, wall)."""
     meta = os.path.join(wd, "mc-" + os.path.basename(cfg))
     out = os.path.join(wd, "mc-" + os.path.basename(cfg) + ".out")
-    cmd = ["timeout", str(timeout), "tlc", "-workers", str(workers), "-metadir", meta, "-cleanup", "-noGenerateSpecTE",
+    # -seed makes TLC's own sampling of exported behaviours (RandomElement in ExportInv) follow VERIF_SEED
+    cmd = ["timeout", str(timeout), "tlc", "-workers", str(workers), "-seed", str(seed()), "-metadir", meta, "-cleanup", "-noGenerateSpecTE",
            "-config", cfg] + (extra or []) + [module + ".tla"]
     t0 = time.time()
     e = {"JAVA_TOOL_OPTIONS": JAVA_MC}
